@@ -53,9 +53,13 @@ func leafPalette(r *coqfmt.Rng) reflect.Type {
 	case x == 15:
 		return coqfmt.Pick(r, []reflect.Type{reflect.TypeOf(float64(0)), reflect.TypeOf(float32(0)), reflect.TypeOf(complex128(0))})
 	case x == 16:
-		return coqfmt.Pick(r, []reflect.Type{reflect.TypeOf([]string(nil)), reflect.TypeOf([]int(nil)), reflect.TypeOf(rty.NStrs(nil))})
+		return coqfmt.Pick(r, []reflect.Type{reflect.TypeOf([]string(nil)), reflect.TypeOf([]int(nil)), reflect.TypeOf(rty.NStrs(nil)),
+			reflect.TypeOf([]int8(nil)), reflect.TypeOf([]uint16(nil)), reflect.TypeOf([]bool(nil)), reflect.TypeOf([]time.Duration(nil)),
+			reflect.TypeOf([]rty.NLevel(nil)), reflect.TypeOf([]float64(nil))})
 	case x == 17:
-		return coqfmt.Pick(r, []reflect.Type{reflect.TypeOf(map[string]int(nil)), reflect.TypeOf(map[string]struct{}(nil))})
+		return coqfmt.Pick(r, []reflect.Type{reflect.TypeOf(map[string]int(nil)), reflect.TypeOf(map[string]struct{}(nil)),
+			reflect.TypeOf(map[string]string(nil)), reflect.TypeOf(map[string][]string(nil)), reflect.TypeOf(map[int8]bool(nil)),
+			reflect.TypeOf(rty.NMap(nil)), reflect.TypeOf(map[string]uint8(nil))})
 	case x == 18:
 		return coqfmt.Pick(r, rty.NamedScalars()) // a declared type of every scalar kind
 	default:
@@ -86,6 +90,24 @@ func leafClass(t reflect.Type) int {
 		reflect.Uint8, reflect.Uint16, reflect.Uint32, reflect.Uint64, reflect.Float32, reflect.Float64,
 		reflect.Complex64, reflect.Complex128:
 		return kParse // predeclared or declared: parse.String dispatches on the kind
+	case reflect.Slice:
+		if c := leafClass(t.Elem()); c == kParse && t.Elem().Kind() != reflect.Complex64 && t.Elem().Kind() != reflect.Complex128 {
+			return kParse
+		}
+		return kSkip
+	case reflect.Map:
+		if t.Elem().Kind() == reflect.Struct && t.Elem().NumField() == 0 {
+			return kParse // a set
+		}
+		if t.Elem().Kind() == reflect.Slice && t.Elem().Elem().Kind() == reflect.String {
+			return kParse // map[string][]string
+		}
+		ek := t.Elem().Kind()
+		if leafClass(t.Key()) == kParse && leafClass(t.Elem()) == kParse && t.Key().Kind() != reflect.Float64 &&
+			ek != reflect.Float32 && ek != reflect.Float64 && ek != reflect.Complex64 && ek != reflect.Complex128 && t.Elem() != tDuration && ek != reflect.Slice && ek != reflect.Map {
+			return kParse
+		}
+		return kSkip
 	}
 	return kSkip
 }
@@ -234,6 +256,34 @@ func genText(r *coqfmt.Rng, t reflect.Type) (text string, bad bool) {
 		t = t.Elem()
 	}
 	garbage := []string{"", " ", "12a", "0x", "--1", "1e3", "yes", "TrUe", "_1", "1__0", "1_", "é", "0b2", "08", " 1", "1 "}
+	allowBadElem := r.Chance(1, 6)
+	elemText := func(et reflect.Type) func() string {
+		return func() string {
+			if et.Kind() == reflect.String {
+				e, _ := rty.GenStrElem(r, allowBadElem)
+				return e
+			}
+			for {
+				e, bad := genText(r, et)
+				if !strings.ContainsAny(e, ", \t\"") && e != "" && (allowBadElem || !bad) {
+					return e
+				}
+			}
+		}
+	}
+	switch t.Kind() {
+	case reflect.Slice:
+		return rty.GenListText(r, elemText(t.Elem())), allowBadElem
+	case reflect.Map:
+		if t.Elem().Kind() == reflect.Struct {
+			return rty.GenListText(r, elemText(t.Key())), allowBadElem
+		}
+		vt := t.Elem()
+		if vt.Kind() == reflect.Slice {
+			vt = vt.Elem()
+		}
+		return rty.GenMapText(r, elemText(t.Key()), elemText(vt), allowBadElem), allowBadElem
+	}
 	switch {
 	case t == tDuration:
 		if r.Chance(1, 5) {
